@@ -92,8 +92,15 @@ class Repo:
             self.modules['<wrapper>'] = Module('<wrapper>', wrapper, 'ssh-audit.py')
         self._funcs = None
         from . import alphanorm, canon
+        self.inlined = {}
+        if os.environ.get('VERIF_NO_NORMALISE') != '1':
+            from . import inline
+            ref = canon.load_reference()
+            if ref:
+                self.inlined = inline.phase_b(self, {k for k in ref if not k.startswith('<')}, set(ref.get('<names>', [])))
+                self._funcs = None
         self.normalised = alphanorm.normalise(self)
-        self.respelled = {}
+        self.respelled = dict(self.inlined)
         if os.environ.get('VERIF_NO_NORMALISE') != '1':
             self.respelled = canon.phase_c(self)
             if self.respelled:
